@@ -1,3 +1,5 @@
+mod alloc;
+mod c14;
 mod exec;
 mod gen;
 mod golden;
@@ -7,6 +9,9 @@ mod util;
 mod wire;
 
 use std::io::{BufRead, Write};
+
+#[global_allocator]
+static GLOBAL: alloc::Counting = alloc::Counting;
 
 fn usage() -> ! {
     eprintln!("usage: ccharness golden-gen <file> | exec [file] | run <prop> <tier> <seed> <driver> <out.json> | replay <driver> <file>");
@@ -44,6 +49,10 @@ fn main() {
             let out = args[6].as_str();
             let workers: usize = std::env::var("VERIF_WORKERS").ok().and_then(|s| s.parse().ok()).unwrap_or(16);
             let thorough = tier == "thorough";
+            if prop == "C14" {
+                c14::run(tier, seed, driver, out);
+                return;
+            }
             let plan = match prop {
                 "C15" => props::plan_c15(tier, seed),
                 "C12" => props::plan_c12(tier, seed),
@@ -79,6 +88,32 @@ fn main() {
                 o.stats.soft_kind_mismatch,
                 t0.elapsed().as_secs_f64()
             );
+        }
+        Some("c14-worker") => c14::worker(),
+        Some("golden-check") => {
+            // golden-check <file> <driver> <out.json>
+            let t0 = std::time::Instant::now();
+            let (checks, fails, mlines) = golden::check(&args[2]);
+            let model = run::run_model(&args[3], &mlines);
+            let mut mism = vec![];
+            for (l, o) in mlines.iter().zip(model.iter()) {
+                if !o.starts_with("ok") {
+                    mism.push(serde_json::json!({"case": "golden", "line_no": 0, "op": "wire", "impl": "ok (deserialises)", "model": o,
+                        "kind": "state", "lines": [l.chars().take(200).collect::<String>()], "shrunk": false}));
+                }
+            }
+            let fails_j: Vec<serde_json::Value> = fails.iter().map(|f| serde_json::json!({
+                "kind": "impl-oracle", "oracle": "golden-corpus", "tags": ["golden"], "what": f, "lines": [], "case": args[2]})).collect();
+            let j = serde_json::json!({
+                "property": "C13", "tier": "quick", "seed": 0, "config": util::CFG, "cases": 1, "lines": checks + mlines.len(),
+                "distinct_traces": 1, "distinct_lines": checks + mlines.len(), "op_hist": {"golden-check": checks, "wire": mlines.len()},
+                "status_hist": {}, "err_kind_hist": {}, "soft_kind_mismatch": 0, "matrix_cells": 0, "matrix_open": 0,
+                "samples": [{"golden_file": args[2], "checks": checks}], "mismatches": mism,
+                "extra": {"rule": "golden corpus: objects serialised by the pinned release (both configurations; several revisions, a disabled right, mixed flavours, five users, empty structure, three headers) are deserialised by the current code and by the Lean wire model, then used (decaps by the recorded openers, refresh with both flags, encaps under the old public key, update, rekey, header decryption) - a test on samples, labelled as such",
+                    "exhaustive": false, "per_line": true, "oracle_failures": fails_j, "oracle_checked": checks, "campaign": "golden", "wall_s": t0.elapsed().as_secs_f64()},
+            });
+            std::fs::write(&args[4], serde_json::to_string_pretty(&j).unwrap()).unwrap();
+            eprintln!("golden {} checks={} failures={} model_rejects={}", util::CFG, checks, fails.len(), mism.len());
         }
         Some("replay") => {
             // re-execute the op lines of a replay file on both sides and print the first disagreement
